@@ -7,7 +7,7 @@ COMMON_ASSUME = [
 
 CHECKS = {
     "C01": {
-        "quick": 1500, "thorough": 60000,
+        "quick": 6000, "thorough": 240000,
         "rule": "rapid draws field values for each of the 9 codec types (every enum member, flag octets 0..255, "
                 "boundary-biased lengths 0..255 / 0..65535, 0..255 arguments) plus an exhaustive enum/flag/length sweep; "
                 "oracle = independent RFC 8907 byte-layout model in both directions. Non-trivial: >=2 variable fields "
@@ -16,7 +16,7 @@ CHECKS = {
         "assumptions": COMMON_ASSUME,
     },
     "C02": {
-        "quick": 800, "thorough": 30000,
+        "quick": 3000, "thorough": 120000,
         "rule": "encode-first: rapid draws a valid value of each of the 9 codec types and (3 of 4 cases) stretches one field/argument "
                 "list to a width boundary (254..257, 65534..65537, 70000, 254..300 args) or spoils it (enum out of range, non-ASCII, "
                 "priv>15, stop+watchdog); oracles: encode ok => decode(encode(v)) == v; !fits(v) by the harness' own width table => "
@@ -26,7 +26,7 @@ CHECKS = {
         "assumptions": COMMON_ASSUME,
     },
     "C04": {
-        "quick": 1500, "thorough": 60000,
+        "quick": 6000, "thorough": 240000,
         "fuzz": [{"name": "FuzzC04UnmarshalAll", "seconds": 90}],
         "rule": "inputs for tacquito.Unmarshal on all 9 types and Request.Fields: raw bytes (0..70000), truncations and single-octet "
                 "corruptions of model-encoded valid values (exhaustive over every cut and every fixed-part octet for a fixed set of "
@@ -37,7 +37,7 @@ CHECKS = {
         "assumptions": COMMON_ASSUME + ["runtime.MemStats.TotalAlloc delta on a single goroutine with GC parked measures allocation of the call"],
     },
     "C03": {
-        "quick": 1500, "thorough": 60000,
+        "quick": 8000, "thorough": 320000,
         "rule": "rapid draws (direction in server-read/server-write/client-write/client-read, secret of 0..300 arbitrary octets, "
                 "session id edge-biased over uint32, minor 0/1, every sequence number of the direction, flag octet, body length "
                 "0..65536 biased to 16k-1/16k/16k+1 and the limit) and a deterministic sweep of lengths 0..80 + block/limit "
@@ -48,7 +48,7 @@ CHECKS = {
         "assumptions": COMMON_ASSUME + ["scripted net.Conn is a faithful connection; client side reached through the verif-tag SetClientConn hook"],
     },
     "C05": {
-        "quick": 800, "thorough": 30000,
+        "quick": 4000, "thorough": 160000,
         "rule": "rapid draws 1..12 packets (3 types, both minors, flags, sessions, body lengths 0..40 / bufio-size neighbours 94..108 / "
                 "4096 / 65535 / 65536), a segmentation of the concatenated stream (one chunk, one byte per read, cuts exactly on "
                 "header/body boundaries, inside the length field, random) and a terminal event (EOF at boundary / mid-header / "
@@ -61,7 +61,7 @@ CHECKS = {
         "assumptions": COMMON_ASSUME + ["scripted net.Conn is a faithful connection (short reads, EOF, timeout errors as a TCP socket produces)"],
     },
     "C06": {
-        "quick": 1200, "thorough": 40000,
+        "quick": 8000, "thorough": 320000,
         "rule": "rapid draws a request header (3 types, minor 0/1, any flag octet, any session id, odd first sequence number so that "
                 "the last request lands on 1,3,251,253,255 or uniform), a depth 1..6 of exchanges through a self-registering "
                 "continuation handler, and per step a reply body (AuthenReply incl. RESTART on the last step, AuthorReply, AcctReply, "
@@ -72,7 +72,7 @@ CHECKS = {
         "assumptions": COMMON_ASSUME + ["one reply per handler invocation (double replies are C07's concern)", "RESTART in answer to request 255 is not generated (statement ambiguous there)"],
     },
     "C08": {
-        "quick": 3000, "thorough": 150000,
+        "quick": 30000, "thorough": 1200000,
         "rule": "rapid draws a history of 1..24 packets on one connection over a pool of 3 session ids; each sequence number is chosen "
                 "relative to a reference model of the session table (next valid, replay of last received/sent, last-1, last-2, even, "
                 "1, 253..255, uniform, forward jump), each with a handler behaviour (reply or not, register a continuation or not); "
@@ -83,7 +83,7 @@ CHECKS = {
         "assumptions": COMMON_ASSUME + ["handlers never pair a RESTART reply with a continuation (no defined meaning in RFC 8907)"],
     },
     "C19": {
-        "quick": 3000, "thorough": 150000,
+        "quick": 30000, "thorough": 1200000,
         "rule": "rapid draws server and client secrets (equal or distinct), packet type, minor, odd seq, flags (0/4/1/5), session and a "
                 "body: a model-encoded well-formed request under the right key, the same under a wrong key, bytes constructed so that "
                 "the server sees over-declared lengths under every layout of the type, arbitrary bytes, or a well-formed request with "
@@ -95,7 +95,7 @@ CHECKS = {
         "assumptions": COMMON_ASSUME + ["bodies whose argument length octets are not all present are GREY (DESIGN.md C19)"],
     },
     "C17": {
-        "quick": 2000, "thorough": 80000,
+        "quick": 20000, "thorough": 800000,
         "rule": "rapid draws a schedule: 0..5 scripted connections, per connection a script of complete packets (spread over 1..3 reads "
                 "or one byte per read, handler optionally held), a partial packet (1..19 bytes, one byte per read, then the read "
                 "deadline is made to expire) or EOF; a cancellation point (before the first accept, inside Accept just before it "
@@ -111,7 +111,7 @@ CHECKS = {
                                          "unbounded liveness is out of reach; bounded liveness under the owned schedule is checked"],
     },
     "C20": {
-        "quick": 600, "thorough": 30000,
+        "quick": 3000, "thorough": 120000,
         "rule": "rapid draws a history of 1..6 connections (some refused at admission by the secret provider) with up to 6 operations each, "
                 "interleaved round-robin: complete a session, start a session whose handler registers a continuation, continue and "
                 "finish it, first packet with an even number, replay of a used number, key-mismatch body, EOF mid-packet, EOF; "
@@ -122,7 +122,7 @@ CHECKS = {
         "assumptions": COMMON_ASSUME + ["cases run sequentially in one process, so the pre-case reading is the resting value"],
     },
     "C13": {
-        "quick": 250, "thorough": 12000,
+        "quick": 1500, "thorough": 60000,
         "rule": "rapid draws a configuration (1..5 ordered scopes with distinct keys and 1..3 prefixes each from an overlapping pool: "
                 "nested v4/v6, 0.0.0.0/0, ::/0, non-canonical 10.1.2.3/8, IPv4-mapped v6 prefixes; deny/allow lists of 0..3 "
                 "prefixes; 1..5 user entries over 3 names assigned to subsets of scopes with per-entry bcrypt credentials) rendered "
@@ -136,7 +136,7 @@ CHECKS = {
         "assumptions": COMMON_ASSUME + ["scopes without users are skipped (documented build rule)", "net.ParseIP parses address text; containment arithmetic is the harness' own"],
     },
     "C10": {
-        "quick": 500, "thorough": 25000,
+        "quick": 2500, "thorough": 100000,
         "rule": "rapid draws a two-scope configuration (1..5 user entries over 5 names incl. 255- and 129-byte names, assigned to scope A, B, "
                 "both or none, each with an authenticator variant: none / bcrypt hash / non-hex hash / keychain by key+group with or "
                 "without keychain entry / no options / unregistered type / inherited from the first group that has one; YAML or JSON), "
@@ -152,7 +152,7 @@ CHECKS = {
         "assumptions": COMMON_ASSUME + ["bcrypt.CompareHashAndPassword decides what 'verifies' means", "keychain lookups are by user name (as the bcrypt authenticator does)"],
     },
     "C11": {
-        "quick": 2000, "thorough": 100000,
+        "quick": 12000, "thorough": 480000,
         "rule": "rapid draws a policy for 1..2 users (0..6 user rules + 0..2 groups x 0..4 rules; rule name from a 4-word pool, '*' or a "
                 "padded name; action permit/deny/other; 0..3 patterns from a grammar: words, .*, alternations, partial anchors, "
                 "groups, escaped metacharacters, classes, surrounding whitespace, empty, invalid; 0..3 services per user/group with "
@@ -168,7 +168,7 @@ CHECKS = {
         "assumptions": COMMON_ASSUME + ["Go regexp decides whether a pattern is valid and what it matches", "service-level is_optional is not generated (the statement speaks of value optionality)"],
     },
     "C12": {
-        "quick": 1500, "thorough": 60000,
+        "quick": 10000, "thorough": 400000,
         "rule": "rapid draws 1..6 accounting requests on one connection against a fixed configuration (users with the file accounter, via a "
                 "group, with an unregistered accounter type, with none, in another scope, unknown): any flag octet (biased to "
                 "start/stop/watchdog/update and stop+watchdog), every method/type/service enum, priv 0..15, header seq 1/3/5, text "
@@ -181,7 +181,7 @@ CHECKS = {
         "assumptions": COMMON_ASSUME + ["a sink line for a request answered ERROR is allowed", "record field names are matched case-insensitively with common aliases"],
     },
     "C18": {
-        "quick": 500, "thorough": 25000,
+        "quick": 2500, "thorough": 100000,
         "rule": "the authentication histories of C10 (two-scope configurations with every authenticator variant; 1..3 interleaved "
                 "sessions: ASCII/PAP logins, wrong passwords, aborts, every action/type/service/minor START, misplaced packets) with "
                 "the connection's shared secret replaced by a unique 19-character token and every presented password (PAP START data "
@@ -194,8 +194,7 @@ CHECKS = {
         "assumptions": COMMON_ASSUME + ["passwords typed at the user-name prompt are not 'passwords presented' in the sense of the statement"],
     },
     "C16": {
-        "quick": 400, "thorough": 20000,
-        "run": "^TestC16",
+        "quick": 2000, "thorough": 80000,
         "rule": "rapid draws a sequence of 2..6 documents for one loader instance (YAML or JSON): a generated two-scope configuration and "
                 "successors derived by dropping prefix_deny/prefix_allow, shrinking or reordering the user and secret lists, "
                 "stripping a user's commands/services/groups/authenticator/accounter or nested match/set_values, shrinking scopes, "
@@ -203,13 +202,13 @@ CHECKS = {
                 "users or no secrets. Oracles: (1) a document is accepted iff a fresh loader accepts it; (2) the value received from "
                 "Config() equals (nil == empty) what a fresh loader publishes for the same document; (3) JSON snapshots of every "
                 "earlier published value are unchanged after every later load; (4) a refused document publishes nothing; (5) live "
-                "variant (TestC16Live, 400 cases per process): the documents are fed to the unmarshaller of a running Loader (apply "
+                "variant (every k-th case so that at most ~400 Loaders are created per process): the documents are fed to the unmarshaller of a running Loader (apply "
                 "barrier: same document pushed twice more) and Loader.Get for 7 probe addresses equals that of a stack freshly "
                 "started with the last accepted document. Non-trivial: a later valid document omits or shrinks something.",
         "assumptions": COMMON_ASSUME + ["gopkg.in/yaml.v3 and encoding/json render the harness' own config structs faithfully"],
     },
     "C07": {
-        "quick": 700, "thorough": 30000,
+        "quick": 3000, "thorough": 120000,
         "rule": "rapid draws a two-scope configuration (every authenticator/accounter variant of C10; 1 in 3 with a service whose "
                 "configured values cannot be encoded: non-ASCII, 300 bytes, 1 byte, 260 values) and a history of 1..12 requests "
                 "multiplexed over 4 session ids on one connection: authentication scripts (all C10 flavours, continued across steps), "
@@ -226,7 +225,7 @@ CHECKS = {
         "assumptions": COMMON_ASSUME + ["a handler that panics is C14's finding, not counted here"],
     },
     "C09": {
-        "quick": 400, "thorough": 20000,
+        "quick": 1500, "thorough": 60000,
         "rule": "rapid draws a two-scope configuration and 2..5 session scripts (authentication scripts of every C10 flavour: ASCII at "
                 "each stage, user in START or CONTINUE, PAP, wrong passwords, aborts, misplaced packets; command/session "
                 "authorizations; accounting) with session ids from a pool whose members collide modulo 256 and differ only in high "
@@ -239,7 +238,7 @@ CHECKS = {
         "assumptions": COMMON_ASSUME + ["scripts that make the server close the whole connection (key-mismatch bodies, sequence violations) are not part of this domain: that effect on neighbours is the protocol's"],
     },
     "C14": {
-        "quick": 500, "thorough": 25000,
+        "quick": 1500, "thorough": 60000,
         "fuzz": [{"name": "FuzzC14ServerStream", "seconds": 120}],
         "rule": "rapid draws a configuration (C10's generator plus odd-but-loadable users: bcrypt authenticator without hash, without "
                 "options, with non-hex or truncated hash, accounters with empty option keys, users with nothing, empty rule/service/"
@@ -255,7 +254,7 @@ CHECKS = {
         "assumptions": COMMON_ASSUME + ["components not registered by cmds/server/main.go (SPAN, DNS provider, syslog accounter, HAProxy header) are outside the check"],
     },
     "C15": {
-        "quick": 150, "thorough": 3000, "race": True, "shards_thorough": 12, "timeout_quick": 1500,
+        "quick": 400, "thorough": 8000, "race": True, "shards_thorough": 12, "timeout_quick": 1500,
         "rule": "rapid draws a concurrent workload run with real goroutines against the whole reference server built with -race: 2..8 "
                 "clients (each its own net.Pipe connection; scripts of PAP and ASCII logins, command authorizations of the same "
                 "user, session authorizations, accounting; optional multiplexing of two sessions; 0..2 extra connections opened and "
